@@ -101,18 +101,41 @@ fn io_sanitized(acc: &mut Acc, wd: &mut Workdir, rng: &mut Rng, rounds: usize) {
     }
 }
 
-fn one_liner(k: usize, result: &str) -> String {
+pub const BODY_SHAPES: usize = 7;
+
+/// main prints its parameters and returns `result`; `shape` varies what the body does in between
+/// without printing anything else or changing the result (the entry code, the lifting of
+/// continuations out of main and the closure / label machinery must not disturb the parameters)
+fn one_liner(k: usize, result: &str, shape: usize) -> String {
     let params: Vec<String> = (0..k).map(|i| format!("a{i}: i64")).collect();
+    let names: Vec<String> = (0..k).map(|i| format!("a{i}")).collect();
     let mut body = String::new();
     for i in 0..k {
         body.push_str(&format!("println_i64(a{i});\n  "));
     }
-    format!("def main({}): i64 {{\n  {body}{result}\n}}\n", params.join(", "))
+    let first = if k > 0 { "a0" } else { "3" };
+    let decls = "data B2 { Tt, Ff }\ncodata Fn1 { ap(u: i64): i64 }\ndef mkb(n: i64): B2 { if n < 0 { Tt } else { Ff } }\n";
+    match shape % BODY_SHAPES {
+        0 => format!("def main({}): i64 {{\n  {body}{result}\n}}\n", params.join(", ")),
+        // a conditional whose continuation is not a leaf
+        1 => format!("def main({}): i64 {{\n  {body}let x: i64 = if {first} < 0 {{ 1 }} else {{ 2 }};\n  let y: i64 = x * 0;\n  ({result}) + y\n}}\n", params.join(", ")),
+        // a match in the middle of main
+        2 => format!("{decls}def main({}): i64 {{\n  {body}let x: i64 = mkb({first}).case {{ Tt => 0, Ff => 0 }};\n  ({result}) + x\n}}\n", params.join(", ")),
+        // all parameters passed on to another definition
+        3 => format!("def pass({}): i64 {{ {result} }}\ndef main({}): i64 {{\n  {body}pass({})\n}}\n", params.join(", "), params.join(", "), names.join(", ")),
+        // a label block
+        4 => format!("def main({}): i64 {{\n  {body}label l {{ if {first} == 123456789 {{ goto l({result}) }} else {{ {result} }} }}\n}}\n", params.join(", ")),
+        // a closure capturing the parameters
+        5 => format!("{decls}def main({}): i64 {{\n  {body}let f: Fn1 = new {{ ap(u) => u + ({result}) }};\n  f.ap(0)\n}}\n", params.join(", ")),
+        // conditional before the prints
+        _ => format!("def main({}): i64 {{\n  let x: i64 = if {first} == 0 {{ 0 }} else {{ 0 }};\n  {body}({result}) + x\n}}\n", params.join(", ")),
+    }
 }
 
 /// (b), (c): native executables of one-line programs
-fn native_args(acc: &mut Acc, wd: &mut Workdir, rng: &mut Rng, rounds: usize) {
+fn native_args(acc: &mut Acc, wd: &mut Workdir, rng: &mut Rng, rounds: usize, all_shapes: bool) {
     for k in 0..=5usize {
+        let shapes: Vec<usize> = if all_shapes { (0..BODY_SHAPES).collect() } else { vec![0, 1 + rng.below(BODY_SHAPES - 1), 1 + rng.below(BODY_SHAPES - 1)] };
         // result: a parameter, a literal or a sum
         let (result_src, result_of): (String, Box<dyn Fn(&[i64]) -> i64>) = match rng.below(3) {
             0 if k > 0 => {
@@ -125,7 +148,9 @@ fn native_args(acc: &mut Acc, wd: &mut Workdir, rng: &mut Rng, rounds: usize) {
                 (format!("{lit}"), Box::new(move |_: &[i64]| lit))
             }
         };
-        let src = one_liner(k, &result_src);
+      for shape in shapes.iter().copied() {
+        let src = one_liner(k, &result_src, shape);
+        acc.count(&format!("main_body_shape_{shape}"));
         let asm = match pipeline::all_stages(&src).and_then(|s| pipeline::x86(s.linear)) {
             Ok(a) => a,
             Err(e) => {
@@ -201,13 +226,15 @@ fn native_args(acc: &mut Acc, wd: &mut Workdir, rng: &mut Rng, rounds: usize) {
             }
         }
         let _ = std::fs::remove_file(&exe);
+      }
     }
 }
 
 /// (d) AArch64: entry registers X1..X7 reach main's parameters
 fn a64_entry(acc: &mut Acc, rng: &mut Rng, rounds: usize) {
-    for k in 0..=7usize {
-        let src = one_liner(k, if k > 0 { "a0" } else { "7" });
+    for ks in 0..8 * BODY_SHAPES {
+        let (k, shape) = (ks / BODY_SHAPES, ks % BODY_SHAPES);
+        let src = one_liner(k, if k > 0 { "a0" } else { "7" }, shape);
         let asm = match pipeline::all_stages(&src).and_then(|s| pipeline::a64(s.linear)) {
             Ok(a) => a,
             Err(e) => {
@@ -317,7 +344,7 @@ pub fn run(ctx: &Ctx, acc: &mut Acc) {
     let mut round = 0;
     while ctx.time_left() && (round < 1 || !ctx.quick()) {
         io_sanitized(acc, &mut wd, &mut rng, if ctx.quick() { 3 } else { 20 });
-        native_args(acc, &mut wd, &mut rng, if ctx.quick() { 6 } else { 40 });
+        native_args(acc, &mut wd, &mut rng, if ctx.quick() { 6 } else { 40 }, !ctx.quick());
         a64_entry(acc, &mut rng, if ctx.quick() { 10 } else { 100 });
         print_placement(acc, &mut rng, ctx);
         round += 1;
@@ -325,7 +352,7 @@ pub fn run(ctx: &Ctx, acc: &mut Acc) {
             break;
         }
     }
-    acc.sample(J::obj().with("one_liner", J::s(one_liner(3, "a1"))).with("example_values", args_json(&[i64::MIN, 5000000000, -1])));
+    acc.sample(J::obj().with("one_liner", J::s(one_liner(3, "a1", 1))).with("example_values", args_json(&[i64::MIN, 5000000000, -1])));
 }
 
 pub fn replay(payload: &J, acc: &mut Acc) {
@@ -334,7 +361,7 @@ pub fn replay(payload: &J, acc: &mut Acc) {
     let mut wd = Workdir::new("c20-replay");
     let mut rng = Rng::new(1);
     io_sanitized(acc, &mut wd, &mut rng, 5);
-    native_args(acc, &mut wd, &mut rng, 10);
+    native_args(acc, &mut wd, &mut rng, 10, true);
     a64_entry(acc, &mut rng, 10);
     let ctx = Ctx { prop: "C20".into(), tier: super::Tier::Quick, seed: 1, shard: 0, nshards: 1, budget: Duration::from_secs(600), start: std::time::Instant::now() };
     print_placement(acc, &mut rng, &ctx);
